@@ -39,7 +39,8 @@ def Z(n):
 
 THEOREMS = ['C10_coherent_inv', 'C10_history', 'C10_history_pure', 'C10_per_call_state_fresh',
             'C10_indenter_yields_agree', 'C10_lazy_init_safe', 'C10_callbacks_complete',
-            'C10_lazy_init_race_old_order_refuted', 'C10_no_reset_refuted', 'C10_example', 'C10_example_threads']
+            'C10_lazy_init_race_old_order_refuted', 'C10_no_reset_refuted', 'C10_example', 'C10_example_threads',
+            'C10_other_instances', 'C10_construction_pure', 'C10_configuration_immutable', 'C10_example_process']
 GEN_DEPS = ['InstOrder', 'IndenterHoles']
 RULE = ('histories: random sequences (0-6 operations) over the public API {parse ok / failing in lexer, parser or Indenter, '
         'parse(start=...), parse(on_error=...), lex and lex(dont_ignore=True) and scan consumed partially or abandoned, '
@@ -50,7 +51,12 @@ RULE = ('histories: random sequences (0-6 operations) over the public API {parse
         'object-graph snapshots; non-trivial = distinct (configuration, history, probe) with a non-empty history. schedules: '
         'all interleavings (quick: all with <= 2 pre-emptions plus a seeded sample) of 2 threads lexing with one fresh shared '
         'BasicLexer, switched only at the lines that access self._scanner / self.callback; non-trivial = distinct schedule in '
-        'which both threads produce tokens. stress: unscheduled threads on all engines')
+        'which both threads produce tokens. stress: unscheduled threads on all engines. other-instance-options: 11 instances A '
+        '(Earley on tie-heavy ambiguous inputs with resolve/explicit ambiguity and every lexer, LALR, CYK, Indenter); between '
+        'two parses of A another instance is constructed and used with every single-option deviation of a 25-entry matrix '
+        '(ordered_sets, ambiguity, priority, lexer, parser, keep_all_tokens, maybe_placeholders, propagate_positions, '
+        'tree_class, transformer, callbacks, flags, start, ...) on the same and on another grammar, plus random combinations; '
+        'A is then parsed 5 more times; first results also compared with a fresh process under the same PYTHONHASHSEED')
 TRUSTED_BASE = [
     'thread switches happen only between source lines (the tracer-based scheduler of this harness has exactly that power); '
     'in the publish-last code every scheduling line performs one GIL-atomic load/store of a shared attribute plus look-ups '
@@ -60,7 +66,8 @@ TRUSTED_BASE = [
     'parse/lex/scan/parse_interactive/save/get_terminal - a syntactic flow-sensitive may-alias analysis (stores through local '
     'names bound to objects reachable from self are attributed to self); state changed inside callees that are not listed '
     '(e.g. a transformer object kept on self) is covered only by the object-graph snapshots and the configuration '
-    'fingerprint of the harness',
+    'fingerprint of the harness; process-wide state: every statement inside a function of lark/*.py that stores into a class, '
+    'module or function object or a module-level variable is listed and compared with a reviewed list of three',
     'Inst/MiniLex.v models literals and backtrack-free character-class regexps only; LALR/Earley/CYK are abstract in the model '
     '(a parser is an arbitrary consumer of the token stream); their per-call freshness is tied by the snapshots and by the '
     'fresh-instance oracle',
@@ -1015,6 +1022,157 @@ def subprocess_reference(ctx):
 
 
 # =====================================================================================================
+# other instances: between two calls on instance A another instance with a different option set is constructed and used
+# =====================================================================================================
+G_AMB = 'start: a a\na: X+\nX: "x"\n'                       # n-1 derivations that neither priority nor rule order separates
+G_AMB_EXPR = 'start: e\ne: e "+" e | N\nN: /[0-9]/\n'        # every bracketing of a sum
+G_AMB_WORDS = 'start: w+\nw: L+\nL: /[a-z]/\n'               # every segmentation of a word
+
+OO_GRAMMARS = {'amb': G_AMB, 'expr': G_AMB_EXPR, 'words': G_AMB_WORDS, 'flat': G_FLAT, 'other': G_OTHER, 'ind': G_IND}
+OO_TEXT = {'amb': 'x' * 12, 'expr': '1+2+3+4+5', 'words': 'abcdef', 'flat': 'ab 12 ( x if ) y', 'other': 'a=1, b=22',
+           'ind': 'a\n  b ( c\n d )\ne\n'}
+
+# instance A: name -> (grammar id, options spec, texts).  Only configurations whose output is documented to be stable
+# (ordered_sets=False is not) - the tie-heavy inputs make the Earley results depend on the order of the SPPF families.
+OO_A = {
+    'earley_dynamic': ('amb', {'parser': 'earley'}, ['x' * 12, 'x' * 7]),
+    'earley_basic': ('amb', {'parser': 'earley', 'lexer': 'basic'}, ['x' * 12]),
+    'earley_explicit': ('amb', {'parser': 'earley', 'ambiguity': 'explicit'}, ['x' * 6]),
+    'earley_expr': ('expr', {'parser': 'earley'}, ['1+2+3+4+5+6']),
+    'earley_expr_explicit': ('expr', {'parser': 'earley', 'ambiguity': 'explicit', 'lexer': 'basic'}, ['1+2+3+4']),
+    'earley_complete': ('words', {'parser': 'earley', 'lexer': 'dynamic_complete'}, ['abcdefgh']),
+    'earley_positions': ('amb', {'parser': 'earley', 'propagate_positions': True}, ['x' * 9]),
+    'lalr': ('flat', {'parser': 'lalr'}, ['ab 12 ( x if ) y', 'ab )']),
+    'lalr_basic_cb': ('flat', {'parser': 'lalr', 'lexer': 'basic', 'lexer_callbacks': {'NAME': 'upper'}}, ['ab 12 ( x )']),
+    'cyk': ('flat', {'parser': 'cyk'}, ['ab 12 ( x )']),
+    'lalr_ind': ('ind', {'parser': 'lalr', 'postlex': 'indenter'}, ['a\n  b ( c\n d )\ne\n']),
+}
+
+# single-option deviations for instance B (every one is tried against every A on every run) ...
+OO_FACTORS = [
+    {'ordered_sets': False}, {'ambiguity': 'explicit'}, {'ambiguity': 'forest'}, {'priority': 'invert'}, {'priority': None},
+    {'priority': 'normal'}, {'lexer': 'basic'}, {'lexer': 'dynamic_complete'}, {'lexer': 'dynamic'}, {'keep_all_tokens': True},
+    {'maybe_placeholders': False}, {'propagate_positions': True}, {'tree_class': 'MyTree'}, {'g_regex_flags': 2},
+    {'parser': 'lalr'}, {'parser': 'lalr', 'lexer': 'basic'}, {'parser': 'lalr', 'lexer': 'contextual'}, {'parser': 'cyk'},
+    {'parser': 'lalr', 'transformer': 'T'}, {'parser': 'lalr', 'lexer_callbacks': {'NAME': 'tag'}}, {'use_bytes': True},
+    {'regex': False}, {'parser': 'lalr', 'cache': False}, {'start': ['start', 'a']}, {'parser': 'lalr', 'strict': False},
+]
+OO_REPEAT = 5
+
+
+def oo_options(spec):
+    """option spec (JSON-able) -> Lark keyword arguments"""
+    import lark
+    kw = {}
+    for k, v in spec.items():
+        if k == 'tree_class':
+            kw[k] = type('MyTree', (lark.Tree,), {})
+        elif k == 'transformer':
+            kw[k] = type('T', (lark.Transformer,), {'start': lambda self, ch: ('start', len(ch))})()
+        elif k == 'lexer_callbacks':
+            kw[k] = {t: CB[c] for t, c in v.items()}
+        elif k == 'postlex':
+            kw[k] = make_indenter()
+        else:
+            kw[k] = v
+    return kw
+
+
+def oo_make(gid, spec):
+    import lark
+    kw = oo_options(spec)
+    kw.setdefault('parser', 'earley')
+    return lark.Lark(OO_GRAMMARS[gid], **kw)
+
+
+def oo_parse(inst, text):
+    try:
+        return ['tree', ctree(inst.parse(text))]
+    except Exception as e:  # noqa
+        return ['err', cerr(e)]
+
+
+def oo_other(gid, spec):
+    """construct another instance and use it; failing constructions and calls are calls too"""
+    try:
+        b = oo_make(gid, spec)
+    except Exception as e:  # noqa
+        return 'construction:' + type(e).__name__
+    try:
+        b.parse(OO_TEXT[gid].encode() if spec.get('use_bytes') else OO_TEXT[gid])
+        return 'used'
+    except Exception as e:  # noqa
+        return 'use:' + type(e).__name__
+
+
+def oo_case(aid, bgid, bspec, repeat=OO_REPEAT):
+    """-> (first differing (text, result before, result after) or None, what happened to B, results before)"""
+    gid, aspec, texts = OO_A[aid]
+    a = oo_make(gid, aspec)
+    before = [oo_parse(a, t) for t in texts]
+    how = oo_other(bgid, bspec)
+    for _ in range(repeat):
+        for t, r0 in zip(texts, before):
+            r = oo_parse(a, t)
+            if r != r0:
+                return (t, r0, r), how, before
+    return None, how, before
+
+
+def other_options_stream(ctx):
+    rng = ctx.rng
+    cases = []
+    for aid in sorted(OO_A):
+        gid = OO_A[aid][0]
+        for f in OO_FACTORS:                                   # one factor at a time, same grammar and another one
+            cases.append((aid, gid if gid in ('amb', 'expr', 'words') or 'start' not in f else 'amb', f))
+        for f in OO_FACTORS[:6]:
+            cases.append((aid, rng.choice(['amb', 'expr', 'flat', 'other']), f))
+    for _ in range(ctx.scale(60, 1500)):                       # ... and random combinations
+        spec = {}
+        for f in rng.sample(OO_FACTORS, rng.randint(2, 4)):
+            spec.update(f)
+        cases.append((rng.choice(sorted(OO_A)), rng.choice(sorted(OO_GRAMMARS)), spec))
+    refs = {}
+    for aid, bgid, bspec in cases:
+        if 'start' in bspec and bgid not in ('amb',):
+            bspec = {k: v for k, v in bspec.items() if k != 'start'}
+        bad, how, before = oo_case(aid, bgid, bspec)
+        refs.setdefault(aid, before)
+        ctx.count('other-instance-options', key=(aid, bgid, json.dumps(bspec, sort_keys=True)), nontrivial=how == 'used',
+                  instance_A=aid, other_instance=how)
+        if before != refs[aid]:
+            bad = (OO_A[aid][2][0], refs[aid], before)        # a *new* A answers differently after earlier Bs
+        if bad:
+            t, r0, r = bad
+            ctx.violation('other-instance-oracle', {'kind': 'other-options', 'instance_A': aid, 'other_grammar': bgid,
+                                                    'other_options': bspec, 'text': t, 'result_before': r0, 'result_after': r},
+                          True, '%s: parse(%r) changed after Lark(%s, %s) was constructed (%s): %s -> %s'
+                          % (aid, t, bgid, json.dumps(bspec, sort_keys=True), how, str(r0)[:90], str(r)[:90]))
+            if getattr(ctx, 'noo', 0) >= 5:
+                break
+            ctx.noo = getattr(ctx, 'noo', 0) + 1
+    # the same calls in a process where nothing else was ever constructed (same PYTHONHASHSEED)
+    code = ('import sys, json\nsys.path.insert(0, %r)\nsys.path.insert(0, %r)\nimport props.C10 as m\n'
+            'print(json.dumps({a: [m.oo_parse(m.oo_make(m.OO_A[a][0], m.OO_A[a][1]), t) for t in m.OO_A[a][2]] '
+            'for a in sorted(m.OO_A)}))\n'
+            % (os.path.dirname(os.path.dirname(os.path.abspath(__file__))), os.environ.get('VERIF_REPO', '/repo')))
+    try:
+        p = subprocess.run([sys.executable, '-c', code], capture_output=True, text=True, timeout=300)
+        fresh = json.loads(p.stdout)
+    except Exception as e:  # noqa
+        ctx.violation('correspondence:subprocess-reference', {'no_longer_checks': 'fresh-process reference (other instances)',
+                                                             'error': str(e)[:300]}, False, 'reference process failed')
+        return
+    for aid, before in refs.items():
+        ctx.count('other-instance-fresh-process', key=aid, nontrivial=True)
+        if json.loads(json.dumps(before)) != fresh.get(aid):
+            ctx.violation('process-oracle', {'kind': 'process-oo', 'instance_A': aid, 'result_in_this_process': before,
+                                             'result_in_fresh_process': fresh.get(aid)}, True,
+                          '%s: the first parse of a new instance differs from the same parse in a fresh process' % aid)
+
+
+# =====================================================================================================
 # threads: a deterministic line scheduler
 # =====================================================================================================
 SHARED = re.compile(r'\bself\.(_scanner|callback)\b')
@@ -1526,7 +1684,8 @@ def stress_stream(ctx):
 # =====================================================================================================
 def correspond(ctx):
     secs = {}
-    for name, fn in (('histories', history_stream), ('fresh-process', subprocess_reference), ('schedules', schedule_stream),
+    for name, fn in (('histories', history_stream), ('fresh-process', subprocess_reference),
+                     ('other-instances', other_options_stream), ('schedules', schedule_stream),
                      ('stress', stress_stream)):
         t0 = time.time()
         fn(ctx)
@@ -1549,6 +1708,14 @@ def replay(ctx, case):
         print('fresh        :', json.dumps(fr)[:400])
         return json.loads(json.dumps(res)) != json.loads(json.dumps(fr))
     if kind == 'process':
+        return False
+    if kind == 'other-options':
+        for _ in range(8):              # the order of an id-hashed set differs from run to run
+            bad, how, before = oo_case(w['instance_A'], w['other_grammar'], w['other_options'], repeat=10)
+            if bad:
+                print('before:', json.dumps(bad[1])[:300])
+                print('after :', json.dumps(bad[2])[:300])
+                return True
         return False
     if kind == 'schedule':
         points = sched_points()
